@@ -270,4 +270,16 @@ impl<F: FixedChannelRegion> RegionHandler for FixedChannelPlan<F> {
             None
         }
     }
+
+    #[cfg(feature = "verif-hooks")]
+    fn verif_plan(&self) -> crate::verif::VerifPlan {
+        let mut channel_mask = [0u8; 9];
+        channel_mask.copy_from_slice(self.channel_mask.as_ref());
+        crate::verif::VerifPlan {
+            fixed: true,
+            channel_mask,
+            channels: [None; 16],
+            join_bias: self.join_channels.verif_snapshot(),
+        }
+    }
 }
